@@ -37,3 +37,13 @@ Definition mon_C13 (sc : scen) (obs : list callobs) : bool :=
   end.
 
 Definition check_C13 := check_with ps_C13 mon_C13.
+
+(* ---------------------------------------------------------------- C07: duplicate detection is exact *)
+(* [sorting]: boxed/ref (true) or retrying (false); [got]: the checked constructor returned Some *)
+Definition model_try_new (sorting : bool) (am : addrmap) (s : shape) : bool :=
+  if sorting then try_new_sorting am s else try_new_retry am s.
+Definition mon_C07 (s : shape) (got : bool) : bool := Bool.eqb got (nodupb (trefs s)).
+Definition check_C07 (sorting : bool) (laddrs uaddrs : list nat) (s : shape) (got : bool) : verdict :=
+  let am := mkam (fun l => nth l laddrs 0) (fun u => nth u uaddrs 0) in
+  let ok := Bool.eqb (model_try_new sorting am s) got in
+  mkv ok ok (mon_C07 s got).
